@@ -7,10 +7,19 @@ def render(n, c):
     vs = []
     for i, l in enumerate(c["lits"]):
         vs.append("        V%d%s,\n" % (i, (" = %d" % l["v"]) if l["has"] else ""))
-    return ("    pub enum E%d {\n%s    }\n    impl E%d {\n        pub fn rt(self) -> E%d { self }\n    }\n" % (n, "".join(vs), n, n))
+    return ("    pub enum E%d {\n%s    }\n    impl E%d {\n        pub fn rt(self) -> E%d { self }\n        pub fn opt(self) -> Option<E%d> { Some(self) }\n    }\n" % (n, "".join(vs), n, n, n))
 
 
-WASM_STUB = """const handler = { get(target, prop) { if (prop === 'memory') return new WebAssembly.Memory({initial: 1}); return (...args) => args[0]; } };
+# `rt` hands its argument back (an enum returned by value); `opt` writes it into the receive buffer as Some(v), so that the binding
+# has to READ the discriminant back from memory (a different code path: signedness shows for negative discriminants)
+WASM_STUB = """const memory = new WebAssembly.Memory({initial: 1});
+let bump = 1024;
+const handler = { get(target, prop) {
+  if (prop === 'memory') return memory;
+  if (prop === 'diplomat_alloc') return (size, align) => { bump = (bump + 7) & ~7; const p = bump; bump += 16; if (bump > 60000) bump = 1024; return p; };
+  if (prop === 'diplomat_free') return () => {};
+  if (String(prop).endsWith('_opt')) return (recv, v) => { new Int32Array(memory.buffer, recv, 1)[0] = v; new Uint8Array(memory.buffer)[recv + 4] = 1; };
+  return (...args) => args[0]; } };
 export default new Proxy({}, handler);
 """
 
@@ -122,11 +131,12 @@ def run(rep, tier):
             lines.append('import { E%d } from "./E%d.mjs";' % (n, n))
         for n, c in enumerate(cases):
             k = len(c["lits"])
-            lines.append('console.log(JSON.stringify({f: "E%d", ffi: [%s], names: [%s], lookup: [%s], rt: [%s]}));' % (
+            lines.append('console.log(JSON.stringify({f: "E%d", ffi: [%s], names: [%s], lookup: [%s], rt: [%s], opt: [%s]}));' % (
                 n, ", ".join("E%d.V%d.ffiValue" % (n, i) for i in range(k)),
                 ", ".join("E%d.V%d.value" % (n, i) for i in range(k)),
                 ", ".join("(new E%d(rt.internalConstructor, E%d.V%d.ffiValue)) === E%d.V%d" % (n, n, i, n, i) for i in range(k)),
-                ", ".join("E%d.V%d.rt() === E%d.V%d" % (n, i, n, i) for i in range(k))))
+                ", ".join("E%d.V%d.rt() === E%d.V%d" % (n, i, n, i) for i in range(k)),
+                ", ".join("E%d.V%d.opt() === E%d.V%d" % (n, i, n, i) for i in range(k))))
         sp = os.path.join(outs["js"], "enums_driver.mjs")
         open(sp, "w").write("\n".join(lines) + "\n")
         p = lib.sh(["node", sp], timeout=300)
@@ -154,7 +164,7 @@ def run(rep, tier):
         if "cpp" in outs and (d is None or d["value"] != discs or d["asffi"] != discs or d["fromffi"] != discs or d["rt"] != discs):
             bad("cpp", "C++ enum values differ", {"cpp": d})
         d = js.get(f)
-        if "js" in outs and (d is None or d["ffi"] != discs or d["names"] != ["V%d" % i for i in range(k)] or not all(d["lookup"]) or not all(d["rt"])):
+        if "js" in outs and (d is None or d["ffi"] != discs or d["names"] != ["V%d" % i for i in range(k)] or not all(d["lookup"]) or not all(d["rt"]) or not all(d["opt"])):
             bad("js", "JS enum values differ", {"js": d})
         # Dart: scheme and table from the text
         if "dart" in outs:
